@@ -17,7 +17,7 @@ TRAIN_BASE, VALID_BASE = 0, 100000
 
 
 def loss_formula(loss_id, theta, train, idx):
-    return ((theta * 7 + idx * 13 + loss_id * 31 + (5 if train else 0)) % 11) * 12
+    return ((theta * 7 + idx * 13 + loss_id * 31 + (5 if train else 0)) % 11) * 12 - 48      # negative values too (energy functionals)
 
 
 def metric_formula(m, theta, train, idx):
@@ -279,6 +279,7 @@ class Run:
         del MODES[:]
         self.aux_obs = []       # per epoch: (frozen parameter inside best_nets, its value when that snapshot was taken)
         self._aux_bumps = 0
+        self.frozen_obs = []    # per epoch: (requires_grad of the frozen parameter, its value, value the harness gave it)
         self._aux_at_snapshot = None
         self._last_best = None
 
@@ -337,6 +338,9 @@ class Run:
                         run._last_best, run._aux_at_snapshot = solver.best_nets, run._aux_bumps
                         run._best_opt_kind = getattr(run, '_epoch_opt_kind', None)
                     run.aux_obs.append((int(round(solver.best_nets[0].aux.item())), run._aux_at_snapshot, call, solver.local_epoch))
+                # the frozen parameter of the live networks: still frozen, and moved by nobody but the harness
+                run.frozen_obs.append((bool(solver.nets[0].aux.requires_grad), int(round(solver.nets[0].aux.item())), run._aux_bumps,
+                                       call, solver.local_epoch))
                 # "unfreeze and train" the frozen parameters between epochs (outside the optimiser)
                 with torch.no_grad():
                     for n_ in {id(n): n for n in solver.nets}.values():
